@@ -71,3 +71,11 @@ pub(crate) fn stub_send_requeue_unreachable(stream: &mut Stream, val: bool) {
 pub(crate) fn stub_stream_send_data_unreachable(_s: &mut Stream, _len: WindowSize, _max: usize) {
     panic!("UNREACHABLE-STUB Stream::send_data")
 }
+
+/// window-update queue: re-queueing panics, popping works (see the capacity-queue stub)
+pub(crate) fn stub_window_update_requeue_unreachable(stream: &mut Stream, val: bool) {
+    if val {
+        panic!("UNREACHABLE-STUB stream re-queued in pending_window_updates");
+    }
+    stream.is_pending_window_update = false;
+}
